@@ -1,7 +1,199 @@
-import GnoVerif.Gen.C19
-namespace GnoVerif.C19
-open GnoVerif.GoInt GnoVerif.Gen.C19
+/-
+C19 — overflow-checked integer arithmetic is exact.
 
-theorem placeholder : (Add true (3#8) (4#8)).1 = 7#8 := by decide
+Theorems about the definitions `GnoVerif.Gen.C19.{Add,Sub,Mul,Div,Addp,Subp,Mulp,Divp}`
+that `gvx tint` regenerates from /repo/tm2/pkg/overflow/overflow.go on every run.
+They hold for every bit width `w > 0` and both signednesses `sg`, hence for all ten
+Go integer types at once (`int8 … int64, int` are `sg = true`, `w = 8 … 64`;
+`uint8 … uint64, uint` are `sg = false`).
+
+`toInt sg a` is the mathematical integer a Go value denotes, `inRange w sg x` says that
+`x` is representable in the type (`minVal w sg ≤ x ≤ maxVal w sg`).
+
+Only hypothesis beyond `0 < w`: `div_exact`/`divp_exact` need `sg = true → 2 ≤ w`,
+because the source compares `b == 1` and the literal `1` is not a value of a 1-bit
+signed type (values −1, 0) — Go has no such type and its type checker would reject the
+instantiation.  `div_exact_fails_at_w1` shows the guard is necessary.
+Helper lemmas: `GnoVerif/Proofs/C19Core.lean` (pure `Int`), `GnoVerif/Proofs/C19.lean`.
+-/
+import GnoVerif.Proofs.C19
+namespace GnoVerif.C19
+open GnoVerif.GoInt
+
+/-- `Add` reports ok exactly when the exact sum is representable, and then returns it. -/
+theorem add_exact {w : Nat} (hw : 0 < w) (sg : Bool) (a b : BitVec w) :
+    ((Gen.C19.Add sg a b).2 = true ↔ inRange w sg (toInt sg a + toInt sg b)) ∧
+    ((Gen.C19.Add sg a b).2 = true →
+      toInt sg (Gen.C19.Add sg a b).1 = toInt sg a + toInt sg b) := by
+  obtain ⟨k, hk⟩ := toInt_add_cong sg a b
+  rw [Add_snd, Add_fst, inRange_iff hw]
+  exact Core.add_core k (two_pow_pos w) (minVal_cases hw sg) (toInt_bounds hw sg a)
+    (toInt_bounds hw sg b) (toInt_bounds hw sg (a + b)) hk
+
+/-- `Sub` reports ok exactly when the exact difference is representable, and then returns it. -/
+theorem sub_exact {w : Nat} (hw : 0 < w) (sg : Bool) (a b : BitVec w) :
+    ((Gen.C19.Sub sg a b).2 = true ↔ inRange w sg (toInt sg a - toInt sg b)) ∧
+    ((Gen.C19.Sub sg a b).2 = true →
+      toInt sg (Gen.C19.Sub sg a b).1 = toInt sg a - toInt sg b) := by
+  obtain ⟨k, hk⟩ := toInt_sub_cong sg a b
+  rw [Sub_snd, Sub_fst, inRange_iff hw]
+  exact Core.sub_core k (two_pow_pos w) (minVal_cases hw sg) (toInt_bounds hw sg a)
+    (toInt_bounds hw sg b) (toInt_bounds hw sg (a - b)) hk
+
+/-- `Mul` never fails at run time (its internal `c / b` is never a division by zero); it
+reports ok exactly when the exact product is representable, and then returns it. -/
+theorem mul_exact {w : Nat} (hw : 0 < w) (sg : Bool) (a b : BitVec w) :
+    ∃ c ok, Gen.C19.Mul sg a b = .ok (c, ok) ∧
+      (ok = true ↔ inRange w sg (toInt sg a * toInt sg b)) ∧
+      (ok = true → toInt sg c = toInt sg a * toInt sg b) :=
+  mul_main hw sg a b
+
+/-- `Div` never fails at run time; it reports ok exactly when the divisor is non-zero and
+the truncated quotient is representable, and then returns that quotient. -/
+theorem div_exact {w : Nat} (hw : 0 < w) (sg : Bool) (h2 : sg = true → 2 ≤ w)
+    (a b : BitVec w) :
+    ∃ c ok, Gen.C19.Div sg a b = .ok (c, ok) ∧
+      (ok = true ↔ (b ≠ 0#w ∧ inRange w sg (Int.tdiv (toInt sg a) (toInt sg b)))) ∧
+      (ok = true → toInt sg c = Int.tdiv (toInt sg a) (toInt sg b)) :=
+  div_main hw sg h2 a b
+
+/-- The representability clause of `div_exact` spelled out: with a non-zero divisor the
+only unrepresentable truncated quotient is `MinInt / -1` of a signed type. -/
+theorem div_overflow_iff {w : Nat} (hw : 0 < w) (sg : Bool) (a b : BitVec w)
+    (hb : toInt sg b ≠ 0) :
+    inRange w sg (Int.tdiv (toInt sg a) (toInt sg b))
+      ↔ ¬(sg = true ∧ toInt sg a = minVal w sg ∧ toInt sg b = -1) :=
+  tdiv_inRange_iff hw sg a b hb
+
+/-- The guard `sg = true → 2 ≤ w` of `div_exact` is necessary: in a 1-bit signed type
+(values −1, 0) the source's literal `1` is the value −1, and `Div (-1) (-1)` answers
+`(-1, true)` although `(-1) / (-1) = 1` is not representable. -/
+theorem div_exact_fails_at_w1 :
+    Gen.C19.Div true (1#1) (1#1) = .ok (1#1, true) ∧
+    toInt true (1#1) = -1 ∧
+    ¬ inRange 1 true (Int.tdiv (toInt true (1#1)) (toInt true (1#1))) := by decide
+
+/-- `Addp` is `Add` with the flag turned into a panic: it returns the exact sum when that
+is representable and panics ("addition overflow") otherwise. -/
+theorem addp_exact {w : Nat} (hw : 0 < w) (sg : Bool) (a b : BitVec w) :
+    (Gen.C19.Addp sg a b = if (Gen.C19.Add sg a b).2 = true then .ok (Gen.C19.Add sg a b).1
+        else .error "addition overflow") ∧
+    (inRange w sg (toInt sg a + toInt sg b) →
+      ∃ r, Gen.C19.Addp sg a b = .ok r ∧ toInt sg r = toInt sg a + toInt sg b) ∧
+    (¬ inRange w sg (toInt sg a + toInt sg b) →
+      Gen.C19.Addp sg a b = .error "addition overflow") := by
+  obtain ⟨h1, h2⟩ := add_exact hw sg a b
+  refine ⟨Addp_eq sg a b, fun h => ?_, fun h => ?_⟩
+  · exact ⟨_, by rw [Addp_eq, if_pos (h1.2 h)], h2 (h1.2 h)⟩
+  · rw [Addp_eq, if_neg (fun h' => h (h1.1 h'))]
+
+/-- `Subp` returns the exact difference when representable and panics otherwise. -/
+theorem subp_exact {w : Nat} (hw : 0 < w) (sg : Bool) (a b : BitVec w) :
+    (Gen.C19.Subp sg a b = if (Gen.C19.Sub sg a b).2 = true then .ok (Gen.C19.Sub sg a b).1
+        else .error "subtraction overflow") ∧
+    (inRange w sg (toInt sg a - toInt sg b) →
+      ∃ r, Gen.C19.Subp sg a b = .ok r ∧ toInt sg r = toInt sg a - toInt sg b) ∧
+    (¬ inRange w sg (toInt sg a - toInt sg b) →
+      Gen.C19.Subp sg a b = .error "subtraction overflow") := by
+  obtain ⟨h1, h2⟩ := sub_exact hw sg a b
+  refine ⟨Subp_eq sg a b, fun h => ?_, fun h => ?_⟩
+  · exact ⟨_, by rw [Subp_eq, if_pos (h1.2 h)], h2 (h1.2 h)⟩
+  · rw [Subp_eq, if_neg (fun h' => h (h1.1 h'))]
+
+/-- `Mulp` returns `Mul`'s value when `Mul`'s flag is true and panics otherwise; hence it
+returns the exact product when representable and panics ("multiplication overflow")
+otherwise — never with a divide-by-zero panic. -/
+theorem mulp_exact {w : Nat} (hw : 0 < w) (sg : Bool) (a b : BitVec w) :
+    (∀ c ok, Gen.C19.Mul sg a b = .ok (c, ok) →
+      Gen.C19.Mulp sg a b = if ok = true then .ok c else .error "multiplication overflow") ∧
+    (inRange w sg (toInt sg a * toInt sg b) →
+      ∃ r, Gen.C19.Mulp sg a b = .ok r ∧ toInt sg r = toInt sg a * toInt sg b) ∧
+    (¬ inRange w sg (toInt sg a * toInt sg b) →
+      Gen.C19.Mulp sg a b = .error "multiplication overflow") := by
+  obtain ⟨c, ok, he, h1, h2⟩ := mul_exact hw sg a b
+  refine ⟨fun c ok h => Mulp_eq sg a b c ok h, fun h => ?_, fun h => ?_⟩
+  · exact ⟨c, by rw [Mulp_eq sg a b c ok he, if_pos (h1.2 h)], h2 (h1.2 h)⟩
+  · rw [Mulp_eq sg a b c ok he, if_neg (fun h' => h (h1.1 h'))]
+
+/-- `Divp` returns `Div`'s value when `Div`'s flag is true and panics otherwise; hence it
+returns the truncated quotient when the divisor is non-zero and the quotient is
+representable, and panics ("division failure") otherwise. -/
+theorem divp_exact {w : Nat} (hw : 0 < w) (sg : Bool) (h2 : sg = true → 2 ≤ w)
+    (a b : BitVec w) :
+    (∀ c ok, Gen.C19.Div sg a b = .ok (c, ok) →
+      Gen.C19.Divp sg a b = if ok = true then .ok c else .error "division failure") ∧
+    (b ≠ 0#w ∧ inRange w sg (Int.tdiv (toInt sg a) (toInt sg b)) →
+      ∃ r, Gen.C19.Divp sg a b = .ok r ∧ toInt sg r = Int.tdiv (toInt sg a) (toInt sg b)) ∧
+    (¬ (b ≠ 0#w ∧ inRange w sg (Int.tdiv (toInt sg a) (toInt sg b))) →
+      Gen.C19.Divp sg a b = .error "division failure") := by
+  obtain ⟨c, ok, he, h1, h3⟩ := div_exact hw sg h2 a b
+  refine ⟨fun c ok h => Divp_eq sg a b c ok h, fun h => ?_, fun h => ?_⟩
+  · exact ⟨c, by rw [Divp_eq sg a b c ok he, if_pos (h1.2 h)], h3 (h1.2 h)⟩
+  · rw [Divp_eq sg a b c ok he, if_neg (fun h' => h (h1.1 h'))]
+
+/-! ### Non-vacuity and boundary witnesses (all by kernel evaluation)
+
+`int8` is `w = 8, sg = true`; `uint8` is `w = 8, sg = false`. -/
+
+-- the hypotheses are satisfiable by every Go type (here int8, uint8, int64)
+example : (0 < 8) ∧ ((true = true) → 2 ≤ 8) := by decide
+example : (0 < 8) ∧ ((false = true) → 2 ≤ 8) := by decide
+example : (0 < 64) ∧ ((true = true) → 2 ≤ 64) := by decide
+
+-- Add: int8 127 + 1 wraps to −128 and is refused; 100 + 27 = 127 is accepted
+example : Gen.C19.Add true (127#8) (1#8) = (128#8, false) := by decide
+example : Gen.C19.Add true (100#8) (27#8) = (127#8, true) := by decide
+example : ¬ inRange 8 true (toInt true (127#8) + toInt true (1#8)) := by decide
+-- Add: int8 (−128) + (−1) wraps to +127 and is refused; uint8 255 + 1 wraps to 0
+example : Gen.C19.Add true (128#8) (255#8) = (127#8, false) := by decide
+example : Gen.C19.Add false (255#8) (1#8) = (0#8, false) := by decide
+-- Sub: int8 (−128) − 1 wraps to 127; uint8 0 − 1 wraps to 255; 0 − (−128) unrepresentable
+example : Gen.C19.Sub true (128#8) (1#8) = (127#8, false) := by decide
+example : Gen.C19.Sub false (0#8) (1#8) = (255#8, false) := by decide
+example : Gen.C19.Sub true (0#8) (128#8) = (128#8, false) := by decide
+example : Gen.C19.Sub true (255#8) (127#8) = (128#8, true) := by decide   -- −1 − 127 = −128
+
+-- Mul: int8 16 * 17 = 272 wraps to +16 — the SAME sign as the exact product, so the sign
+-- test passes and only `c / b == a` (16 / 17 = 0 ≠ 16) rejects it
+example : Gen.C19.Mul true (16#8) (17#8) = .ok (16#8, false) := by decide
+example : toInt true (16#8) * toInt true (17#8) = 272 ∧ ¬ inRange 8 true 272 := by decide
+-- Mul: int8 (−128) * (−1) = 128 wraps to −128, and (−128) / (−1) wraps back to −128 = a,
+-- so `c / b == a` PASSES; this is the one case the sign test exists for
+example : Gen.C19.Mul true (128#8) (255#8) = .ok (128#8, false) := by decide
+example : (128#8 : BitVec 8).sdiv (255#8) = 128#8 := by decide
+-- Mul: int8 (−1) * (−128) the other way round; 64 * 2 = 128 wraps to −128
+example : Gen.C19.Mul true (255#8) (128#8) = .ok (128#8, false) := by decide
+example : Gen.C19.Mul true (64#8) (2#8) = .ok (128#8, false) := by decide
+-- Mul: representable extremes are accepted: (−64) * 2 = −128, (−127) * (−1) = 127
+example : Gen.C19.Mul true (192#8) (2#8) = .ok (128#8, true) := by decide
+example : Gen.C19.Mul true (129#8) (255#8) = .ok (127#8, true) := by decide
+-- Mul: uint8 16 * 16 = 256 wraps to 0; 15 * 17 = 255 accepted; zero operand short-circuits
+example : Gen.C19.Mul false (16#8) (16#8) = .ok (0#8, false) := by decide
+example : Gen.C19.Mul false (15#8) (17#8) = .ok (255#8, true) := by decide
+example : Gen.C19.Mul true (0#8) (128#8) = .ok (0#8, true) := by decide
+
+-- Div: int8 MinInt / −1 is the only overflow; division by zero is refused, not a panic
+example : Gen.C19.Div true (128#8) (255#8) = .ok (128#8, false) := by decide
+example : ¬ inRange 8 true (Int.tdiv (toInt true (128#8)) (toInt true (255#8))) := by decide
+example : Gen.C19.Div true (5#8) (0#8) = .ok (0#8, false) := by decide
+-- Div: `c == a` without overflow: a / 1 and 0 / b are accepted; truncation toward zero
+example : Gen.C19.Div true (128#8) (1#8) = .ok (128#8, true) := by decide
+example : Gen.C19.Div true (0#8) (255#8) = .ok (0#8, true) := by decide
+example : Gen.C19.Div true (249#8) (2#8) = .ok (253#8, true) := by decide      -- −7 / 2 = −3
+example : Gen.C19.Div false (128#8) (255#8) = .ok (0#8, true) := by decide    -- uint8 128 / 255
+
+-- panicking variants
+example : Gen.C19.Addp true (127#8) (1#8) = .error "addition overflow" := by decide
+example : Gen.C19.Addp true (100#8) (27#8) = .ok (127#8) := by decide
+example : Gen.C19.Subp false (0#8) (1#8) = .error "subtraction overflow" := by decide
+example : Gen.C19.Mulp true (128#8) (255#8) = .error "multiplication overflow" := by decide
+example : Gen.C19.Mulp true (192#8) (2#8) = .ok (128#8) := by decide
+example : Gen.C19.Divp true (128#8) (255#8) = .error "division failure" := by decide
+example : Gen.C19.Divp true (5#8) (0#8) = .error "division failure" := by decide
+example : Gen.C19.Divp true (249#8) (2#8) = .ok (253#8) := by decide
+
+-- the 1-bit signed corner (values −1, 0) is covered by add/sub/mul_exact: (−1)*(−1) = 1 refused
+example : Gen.C19.Mul true (1#1) (1#1) = .ok (1#1, false) := by decide
+example : Gen.C19.Add true (1#1) (1#1) = (0#1, false) := by decide
 
 end GnoVerif.C19
